@@ -698,15 +698,28 @@ func ruleSortedVars(r *Run) {
 		return
 	}
 	nameOK := false
-	for _, st := range p.storesToField(nil, "variable", "name") {
-		if st.Parent() != av {
-			continue
-		}
-		for _, o := range p.origins(st.Val, originOpts{}) {
-			if c, ok := o.(*ssa.Call); ok && calleeName(c) == "(larking.io/larking.tokens).String" && c.Call.Args[0] == ssa.Value(av.Params[1]) {
-				nameOK = true
+	nameF := p.StructField("variable", "name")
+	variableT := p.NamedType("variable")
+	// addVariable and, call chain by call chain, the helpers it uses (a constructor newVariable(name, …) shared with
+	// clone is judged with the arguments addVariable passes)
+	region := p.rootedRegion(av)
+	for _, n := range region {
+		n := n
+		eachInstr(n.fn, func(in ssa.Instruction) {
+			st, ok := in.(*ssa.Store)
+			if !ok {
+				return
 			}
-		}
+			fa, ok := st.Addr.(*ssa.FieldAddr)
+			if !ok || fieldOfAddr(fa) != nameF {
+				return
+			}
+			for _, o := range p.origins(n.bind.subst(st.Val), originOpts{}) {
+				if c, ok := o.(*ssa.Call); ok && calleeName(c) == "(larking.io/larking.tokens).String" && p.onlyFrom(c.Call.Args[0], av.Params[1]) {
+					nameOK = true
+				}
+			}
+		})
 	}
 	r.check(nameOK, "(*path).addVariable/name-is-pattern-text", av.Pos(), "the sort key is the pattern's own token text", "variable.name is not toks.String() of the pattern: the sort key is not a function of the pattern")
 	uniq := false
@@ -716,17 +729,18 @@ func ruleSortedVars(r *Run) {
 			return
 		}
 		okv := extractOf(c, 1)
-		eachInstr(av, func(x ssa.Instruction) {
-			al, isAl := x.(*ssa.Alloc)
-			if !isAl || namedOf(al.Type()) != p.NamedType("variable") {
-				return
-			}
-			for _, g := range guardsOf(al.Block()) {
-				if g.Cond == okv && !g.True {
+		for _, n := range region {
+			n := n
+			eachInstr(n.fn, func(x ssa.Instruction) {
+				al, isAl := x.(*ssa.Alloc)
+				if !isAl || namedOf(al.Type()) != variableT {
+					return
+				}
+				if p.guardedInChain(n, al.Block(), func(g guardFact) bool { return g.Cond == okv && !g.True }) {
 					uniq = true
 				}
-			}
-		})
+			})
+		}
 	})
 	r.check(uniq, "(*path).addVariable/unique-names", av.Pos(), "a new variable is created only when no variable of that name exists on the node", "a variable is created without the findVariable check: duplicate patterns make the sorted order ambiguous")
 }
@@ -829,10 +843,45 @@ func ruleKeyAgree(r *Run) {
 			}
 			return false
 		}
-		if isParam(ta, ap.Params[1]) && isParam(tb, ap.Params[2]) {
+		if len(ap.Params) > 2 && isParam(ta, ap.Params[1]) && isParam(tb, ap.Params[2]) {
 			wOK = true
 		}
 	})
+	// the concatenation may be done by the callers (addPath(sep.val + text.val)): then every call site must pass the
+	// text of two different tokens, separator first
+	if !wOK {
+		var keyPar *ssa.Parameter
+		eachInstr(ap, func(in ssa.Instruction) {
+			if mu, ok := in.(*ssa.MapUpdate); ok {
+				for _, o := range p.origins(mu.Key, originOpts{}) {
+					if par, ok := o.(*ssa.Parameter); ok && par.Parent() == ap {
+						keyPar = par
+					}
+				}
+			}
+		})
+		if keyPar != nil {
+			sites, good := 0, 0
+			for _, fn := range p.ModuleFuncs() {
+				eachInstr(fn, func(in ssa.Instruction) {
+					c, ok := in.(ssa.CallInstruction)
+					if !ok || c.Common().StaticCallee() != ap {
+						return
+					}
+					sites++
+					a, b, ok := concatOfVals(argAt(c, paramIndex(keyPar)))
+					if !ok {
+						return
+					}
+					ta, tb := isValOf(a), isValOf(b)
+					if ta != nil && tb != nil && ta != tb && !p.sameValue(ta, tb) {
+						good++
+					}
+				})
+			}
+			wOK = sites > 0 && good == sites
+		}
+	}
 	r.check(wOK, "(*path).addPath/key", ap.Pos(), "edge key = separator token text + segment token text", "addPath does not key the edge by parent.val + value.val")
 	// reader: toks[0].val + toks[1].val
 	rOK := false
